@@ -1141,6 +1141,7 @@ def run(tier, seed):
         "the number of subtotals and the differences are also checked through inserted_*_idxs / diff_*_idxs",
     ]
     return rep.finish("proof", ob, trusted_base=core.TRUSTED_BASE_COMMON + [
+        _dimension_trusted_base(),
         "Model/SubtotalIds.v, Model/Subtotals.v, Model/SubtotalRun.v and the base-block builders of "
         "Model/Proportions.v are hand-written; tied to dimension.py (_Subtotals, _Subtotal), matrix/subtotals.py, "
         "stripe/insertion.py and the block code of matrix/measure.py / stripe/measure.py by this correspondence run",
@@ -1160,3 +1161,11 @@ def replay(path):
     if not rep.violations and not rep.known:
         print("REPLAY: no longer fails")
     return 1 if (rep.violations or rep.known) else 0
+
+
+def _dimension_trusted_base():
+    try:
+        from harness.translate import x_dimension
+        return x_dimension.TRUSTED_BASE
+    except Exception:
+        return "dimension translator harness/translate/x_dimension.py not importable"
